@@ -19,6 +19,10 @@ use tokio_tungstenite::tungstenite::Message as WsMessage;
 const LONG: Duration = Duration::from_secs(5);
 const SHORT: Duration = Duration::from_millis(40);
 const WAIT: Duration = Duration::from_secs(4);
+/// mode=spin: threads per case, rounds per case, cases in the quick tier
+const SPIN_W: u64 = 8;
+const SPIN_ROUNDS: u64 = 200;
+const SPIN_CASES: u64 = 4;
 
 fn rt() -> &'static tokio::runtime::Runtime {
     static RT: OnceLock<tokio::runtime::Runtime> = OnceLock::new();
@@ -127,6 +131,19 @@ impl Conn {
         match self {
             Conn::Tcp(s) => s.write_all(&frame).map_err(|e| e.to_string()),
             Conn::Ws(ws) => rt().block_on(async { tokio::time::timeout(WAIT, ws.send(WsMessage::Binary(frame))).await.map_err(|_| "send timeout".to_string())?.map_err(|e| e.to_string()) }),
+        }
+    }
+    /// the frame leaves in two pieces: `off` bytes, a pause during which the peer sits inside the
+    /// frame, then the rest (raw TCP only)
+    fn send_stalled(&mut self, frame: Vec<u8>, off: usize, pause: Duration) -> Result<(), String> {
+        match self {
+            Conn::Tcp(s) => {
+                let off = off.clamp(1, frame.len() - 1);
+                s.write_all(&frame[..off]).and_then(|_| s.flush()).map_err(|e| e.to_string())?;
+                std::thread::sleep(pause);
+                s.write_all(&frame[off..]).map_err(|e| e.to_string())
+            }
+            Conn::Ws(_) => Err("stall: raw TCP only".into()),
         }
     }
     fn read(&mut self) -> Result<Vec<u8>, String> {
@@ -446,7 +463,80 @@ fn probe_run(kind: &str, cl: &Cl, srv: &mut Server, gate: &Gate, sched: &[Step],
     if at_b { gate.release(b); let _ = gate.wait_any(&[(a, sent)], WAIT); }
 }
 
-fn run_inner(kind: &str, mode: &str, n: u64, sched: &[Step]) -> String {
+/// A barrier whose participants spin: all of them see the last arrival within a few cache-line
+/// transfers and go on at the same instant (a futex barrier wakes its sleepers one after the other,
+/// microseconds apart).  After a few milliseconds of spinning a participant also yields, so that a
+/// machine with fewer free cores than participants still makes progress.
+struct SpinBarrier { n: usize, arrived: std::sync::atomic::AtomicUsize }
+impl SpinBarrier {
+    fn wait(&self, round: usize) {
+        use std::sync::atomic::Ordering::SeqCst;
+        self.arrived.fetch_add(1, SeqCst);
+        let mut spins = 0u32;
+        while self.arrived.load(SeqCst) < (round + 1) * self.n {
+            std::hint::spin_loop();
+            spins = spins.saturating_add(1);
+            if spins > 200_000 { std::thread::yield_now(); }
+        }
+    }
+}
+
+/// mode=spin (blocking client): `w` threads on clones of the one client make `n / w` rounds of
+/// calls; in every round all of them are released at the same instant (caller `r * w + j` is
+/// thread j's call of round r) and the server answers the round in the scripted order.  A round
+/// starts with an ordinary (sleeping) barrier, passed only after every call of the previous round
+/// has returned (the order of the schedule), so that nobody burns a core while calls are still
+/// out and every thread comes to the spin barrier freshly woken; the spin barrier then releases
+/// them together.  After a round in which some call did not return its own response the threads
+/// stop (the remaining callers report `b6`): the case has failed by then.
+fn spin_run(cl: &Cl, srv: &mut Server, n: u64, w: u64, sched: &[Step], tx: &mpsc::Sender<(u64, String)>) {
+    use std::sync::atomic::{AtomicBool, Ordering::SeqCst};
+    let Cl::Tcp(client) = cl else { panic!("mode=spin: blocking client only") };
+    let rounds = n / w;
+    let park = Arc::new(std::sync::Barrier::new(w as usize));
+    let bar = Arc::new(SpinBarrier { n: w as usize, arrived: Default::default() });
+    let abort = Arc::new(AtomicBool::new(false));
+    for j in 0..w {
+        let (client, park, bar, abort, tx) = (client.clone(), park.clone(), bar.clone(), abort.clone(), tx.clone());
+        std::thread::Builder::new().stack_size(256 * 1024).spawn(move || {
+            let mut r = 0;
+            while r < rounds {
+                let c = r * w + j;
+                let path = format!("/c{c}"); let body = json!({"tag": c}); let want = format!("g{c:x}");
+                park.wait();
+                bar.wait(r as usize);
+                // written before the barriers by whoever saw a wrong outcome: everybody reads the same value
+                if abort.load(SeqCst) { break; }
+                let o = guard(std::panic::AssertUnwindSafe(|| outcome(client.call_json_with_timeout(&path, &body, LONG)))).unwrap_or_else(|_| "b5".into());
+                if o != want { abort.store(true, SeqCst); }
+                let _ = tx.send((c, o));
+                r += 1;
+            }
+            for r in r..rounds { let _ = tx.send((r * w + j, "b6".into())); }
+        }).expect("spawn");
+    }
+    // the server: before reading the next request, see that something is there to read (nothing
+    // comes once the callers have stopped)
+    for st in sched {
+        if let Step::Reply(k, _) = st {
+            if !srv.seen.contains_key(k) {
+                if let Conn::Tcp(s) = &mut srv.conn {
+                    s.set_read_timeout(Some(Duration::from_millis(100))).ok();
+                    let t0 = Instant::now(); let mut some = false; let mut b = [0u8; 1];
+                    while !abort.load(SeqCst) && t0.elapsed() < WAIT + LONG {
+                        match s.peek(&mut b) { Ok(0) => break, Ok(_) => { some = true; break; } Err(_) => {} }   // Err: nothing within 100 ms
+                    }
+                    s.set_read_timeout(Some(WAIT)).ok();
+                    if !some { break; }
+                }
+            }
+        }
+        if let Some(fr) = server_frame(srv, st) { srv.send(fr); }
+        if srv.err.is_some() { break; }
+    }
+}
+
+fn run_inner(kind: &str, mode: &str, n: u64, sched: &[Step], f: &HashMap<String, String>) -> String {
     let gate = Gate::new(mode == "probe");
     *GATE.lock().unwrap() = Some(gate.clone());
     let Setup { cl, mut srv, sub } = match setup(kind) { Ok(s) => s, Err(e) => return format!("crash=setup:{}", e.replace(' ', "_")) };
@@ -457,8 +547,21 @@ fn run_inner(kind: &str, mode: &str, n: u64, sched: &[Step]) -> String {
             let barrier = if kind == "tcp" { Some(Arc::new(std::sync::Barrier::new(n as usize))) } else { None };
             for c in 0..n { spawn_caller(&cl, c, LONG, tx.clone(), barrier.clone()); }
             for c in 0..n { if srv.need(c).is_none() { break; } }
-            for st in sched { if let Some(fr) = server_frame(&mut srv, st) { srv.send(fr); } }
+            // stall=<i>:<off>:<ms> (harness-only): the i-th frame of the script leaves in two pieces,
+            // <off> bytes, then nothing for <ms> milliseconds, then the rest
+            let stall: Option<(usize, usize, u64)> = f.get("stall").map(|v| { let t: Vec<u64> = v.split(':').map(hx).collect(); (t[0] as usize, t[1] as usize, t[2]) });
+            let mut nframe = 0usize;
+            for st in sched {
+                if let Some(fr) = server_frame(&mut srv, st) {
+                    match stall {
+                        Some((i, off, ms)) if i == nframe => { if let Err(e) = srv.conn.send_stalled(fr, off, Duration::from_millis(ms)) { srv.err.get_or_insert(format!("server-send:{e}")); } }
+                        _ => srv.send(fr),
+                    }
+                    nframe += 1;
+                }
+            }
         }
+        "spin" => spin_run(&cl, &mut srv, n, hx(&f["w"]), sched, &tx),
         // batcht: the same with a short per-call timeout; entries that the script times out (T:k) are
         // never answered, the others are answered as their requests arrive
         "batch" | "batcht" => {
@@ -515,7 +618,7 @@ fn run_case(line: &str) -> String {
     let kind = f["k"].clone(); let mode = f["mode"].clone(); let n = hx(&f["n"]);
     let sched: Vec<Step> = if f["sched"] == "-" { vec![] } else { f["sched"].split(';').map(parse_step).collect() };
     NO_SUB.store(f.get("sub").map(|v| v == "0").unwrap_or(false), std::sync::atomic::Ordering::SeqCst);
-    guard(std::panic::AssertUnwindSafe(|| run_inner(&kind, &mode, n, &sched))).unwrap_or_else(|_| "crash=panic".into())
+    guard(std::panic::AssertUnwindSafe(|| run_inner(&kind, &mode, n, &sched, &f))).unwrap_or_else(|_| "crash=panic".into())
 }
 
 // ---------------------------------------------------------------- case generation
@@ -830,6 +933,37 @@ fn gen_cases(seed: u64, thorough: bool) -> Vec<String> {
     for _ in 0..nreuse {
         let (n, sched) = reuse_script(&mut rng);
         cases.push(render("async", "probe", n, &sched));
+    }
+    // a response frame that reaches the client in two pieces with 0.7..1.4 s of silence in between
+    // (the peer stalls inside the length prefix, the header, right after it, inside the query or the
+    // body) while the other calls are in flight: the frame is read whole, every call gets its own
+    // response (raw TCP clients; stall= is a harness-only switch, the case is an ordinary `par` case)
+    let offs = [1u64, 8, 17, 24, 40, 47, 48, 49, 50, 51, 54, 0xffff];
+    let nstall = if thorough { 12 } else { 4 };
+    for kind in ["async", "tcp"] {
+        for i in 0..(if kind == "async" { 2 * nstall } else { nstall }) {
+            let n = rng.range(2, 6);
+            let mut order: Vec<u64> = (0..n).collect(); shuffle(&mut rng, &mut order);
+            let sched = script(&mut rng, false, n, &order, i % 2 == 1);
+            let nframes = sched.iter().filter(|s| matches!(s, Step::Reply(..) | Step::Unknown(..))).count() as u64;
+            // not the last frame: calls are still waiting behind the stalled one
+            let which = rng.below(nframes - 1);
+            let off = offs[(i as usize * 5 + (kind == "tcp") as usize * 3) % offs.len()];
+            cases.push(format!("{} stall={which:x}:{off:x}:{:x}", render(kind, "par", n, &sched), rng.range(700, 1400)));
+        }
+    }
+    // blocking client: w threads released from a spin barrier at the same instant, round after
+    // round (mode=spin): every call gets its own response and all request ids are distinct
+    let (nspin, rounds) = if thorough { (12, 200) } else { (SPIN_CASES, SPIN_ROUNDS) };
+    for _ in 0..nspin {
+        let w = SPIN_W;
+        let mut sched: Vec<Step> = vec![];
+        for r in 0..rounds {
+            sched.extend((0..w).flat_map(|j| [Step::R(r * w + j), Step::W(r * w + j)]));
+            let mut order: Vec<u64> = (0..w).map(|j| r * w + j).collect(); shuffle(&mut rng, &mut order);
+            sched.extend(order.into_iter().map(|k| Step::Reply(k, 0)));
+        }
+        cases.push(format!("{} w={w:x}", render("tcp", "spin", w * rounds, &sched)));
     }
     cases.into_iter().enumerate().map(|(i, c)| format!("i={i} {c}")).collect()
 }
